@@ -80,7 +80,7 @@ func (e *Engine) binop(st *State, fr *Frame, op token.Token, a, b Value, ta, tb 
 	case token.MUL:
 		return c.BVMul(x, y), true
 	case token.QUO, token.REM:
-		if !e.mustHold(st, c.Ne(y, c.BV(0, y.Sort.W)), "integer divide by zero", pos) {
+		if !e.mustHoldF(st, fr, exits, c.Ne(y, c.BV(0, y.Sort.W)), "integer divide by zero", pos) {
 			e.finish(st, fr, exitPanic, nil, "integer divide by zero", exits)
 			return nil, false
 		}
@@ -105,7 +105,7 @@ func (e *Engine) binop(st *State, fr *Frame, op token.Token, a, b Value, ta, tb 
 	case token.SHL, token.SHR:
 		w := x.Sort.W
 		if isSigned(tb) {
-			if !e.mustHold(st, c.BVSle(c.BV(0, y.Sort.W), y), "negative shift amount", pos) {
+			if !e.mustHoldF(st, fr, exits, c.BVSle(c.BV(0, y.Sort.W), y), "negative shift amount", pos) {
 				e.finish(st, fr, exitPanic, nil, "negative shift amount", exits)
 				return nil, false
 			}
@@ -191,6 +191,10 @@ func (e *Engine) eqVal(a, b Value) *Term {
 	case StrV:
 		y := b.(StrV)
 		if x.Opaque || y.Opaque {
+			// the only thing known about an opaque string is a lower bound on its length
+			if x.Opaque && !y.Opaque && len(y.B) < x.MinLen || y.Opaque && !x.Opaque && len(x.B) < y.MinLen {
+				return c.False
+			}
 			panic(unsupported("== on opaque string " + x.Note + y.Note))
 		}
 		if len(x.B) != len(y.B) {
@@ -311,6 +315,15 @@ func (e *Engine) unop(st *State, fr *Frame, x *ssa.UnOp, exits *[]exit) (Value, 
 			if !ok {
 				return nil, false
 			}
+			if n := len(p.Path); n > 0 && p.Path[n-1].S != nil {
+				// load through a symbolic array index: fork when the elements cannot be merged into one value
+				if arr, isArr := e.getPath(st, e.obj(st, p.Obj), p.Path[:n-1]).(ArrayV); isArr {
+					if v, ok := e.trySelectElem(arr.E, p.Path[n-1].S); ok {
+						return v, true
+					}
+					return indexFork{elems: arr.E, idx: p.Path[n-1].S}, true
+				}
+			}
 			return e.load(st, p), true
 		case LocV, RegexpV:
 			panic(unsupported("dereference of abstract pointer"))
@@ -426,10 +439,33 @@ func (e *Engine) index(st *State, fr *Frame, xv Value, idx *Term, it types.Type,
 		}
 		return elems[i], true
 	}
-	if !e.mustHold(st, c.BVUlt(idx, c.BV(uint64(n), 64)), fmt.Sprintf("index out of range with length %d", n), pos) {
+	if !e.mustHoldF(st, fr, exits, c.BVUlt(idx, c.BV(uint64(n), 64)), fmt.Sprintf("index out of range with length %d", n), pos) {
 		e.finish(st, fr, exitPanic, nil, "index out of range", exits)
 		return nil, false
 	}
+	if v, ok := e.trySelectElem(elems, idx); ok {
+		return v, true
+	}
+	return indexFork{elems: elems, idx: idx}, true
+}
+
+// indexFork: the result of a symbolic index whose candidate elements have different shapes; the
+// instruction handler forks one state per feasible index value.
+type indexFork struct {
+	elems []Value
+	idx   *Term
+}
+
+func (e *Engine) trySelectElem(elems []Value, idx *Term) (v Value, ok bool) {
+	defer func() {
+		if r := recover(); r != nil {
+			if _, isU := r.(unsupportedErr); isU {
+				v, ok = nil, false
+				return
+			}
+			panic(r)
+		}
+	}()
 	return e.selectElem(elems, idx), true
 }
 
@@ -446,7 +482,7 @@ func (e *Engine) indexAddr(st *State, fr *Frame, xv Value, idx *Term, it types.T
 			}
 			return PtrV{Obj: x.Obj, Path: appendPath(x.Path, PathElem{I: x.Off + int(i)})}, true
 		}
-		if !e.mustHold(st, c.BVUlt(idx, x.Len), "index out of range (slice)", pos) {
+		if !e.mustHoldF(st, fr, exits, c.BVUlt(idx, x.Len), "index out of range (slice)", pos) {
 			e.finish(st, fr, exitPanic, nil, "index out of range", exits)
 			return nil, false
 		}
@@ -478,7 +514,7 @@ func (e *Engine) indexAddr(st *State, fr *Frame, xv Value, idx *Term, it types.T
 			}
 			return PtrV{Obj: x.Obj, Path: appendPath(x.Path, PathElem{I: int(i)})}, true
 		}
-		if !e.mustHold(st, c.BVUlt(idx, c.BV(uint64(n), 64)), fmt.Sprintf("index out of range with length %d", n), pos) {
+		if !e.mustHoldF(st, fr, exits, c.BVUlt(idx, c.BV(uint64(n), 64)), fmt.Sprintf("index out of range with length %d", n), pos) {
 			e.finish(st, fr, exitPanic, nil, "index out of range", exits)
 			return nil, false
 		}
@@ -537,7 +573,7 @@ func (e *Engine) sliceOp(st *State, fr *Frame, x *ssa.Slice, exits *[]exit) (Val
 				e.panicExit(st, fr, fmt.Sprintf("slice bounds out of range [%s:%s] with capacity %d", lo, hi, v.Cap), x.Pos(), exits)
 				return nil, false
 			}
-			if !e.mustHold(st, cond, "slice bounds out of range", x.Pos()) {
+			if !e.mustHoldF(st, fr, exits, cond, "slice bounds out of range", x.Pos()) {
 				return fail("slice bounds out of range")
 			}
 		}
@@ -567,7 +603,7 @@ func (e *Engine) sliceOp(st *State, fr *Frame, x *ssa.Slice, exits *[]exit) (Val
 			e.panicExit(st, fr, "slice bounds out of range (array)", x.Pos(), exits)
 			return nil, false
 		}
-		if !e.mustHold(st, cond, "slice bounds out of range", x.Pos()) {
+		if !e.mustHoldF(st, fr, exits, cond, "slice bounds out of range", x.Pos()) {
 			return fail("slice bounds out of range")
 		}
 		if !lo.IsConst() || !max.IsConst() {
